@@ -69,6 +69,9 @@ MUTANTS = [
     # ---- C10
     ("C10", "detect", "specs/openapi/expressions/nodes.py", "            \"query\": output.case.query,\n            \"path\": output.case.path_parameters,", "            \"query\": output.case.path_parameters,\n            \"path\": output.case.query,", "$request.query reads path parameters"),
     ("C10", "detect", "specs/openapi/stateful/__init__.py", "        return result.response.status_code in status_codes", "        return result.response.status_code not in status_codes", "link status filter inverted"),
+    ("C10", "detect", "specs/openapi/stateful/__init__.py", "                    if isinstance(extracted.value, Ok) and extracted.value.ok() not in (None, UNRESOLVABLE)", "                    if isinstance(extracted.value, Ok) and extracted.value.ok() is not None", "unresolvable link parameters are passed on as values"),
+    ("C10", "detect", "specs/openapi/stateful/__init__.py", "                    case.body = {**case.body, **new}", "                    case.body = {**new, **case.body}", "merge_body: generated values win over the link's"),
+    ("C10", "detect", "specs/openapi/stateful/__init__.py", "        return result.response.status_code not in expanded_status_codes", "        return result.response.status_code in expanded_status_codes", "default link filter inverted"),
     # ---- C11
     ("C11", "detect", UNIT, "    yield scenario_finished(status)\n", "    pass\n", "scenario never closed"),
     ("C11", "detect", "engine/core.py", "        # Always finish\n        yield from self._finish(engine)\n", "        # Always finish\n        pass\n", "EngineFinished omitted on the normal path"),
